@@ -1,6 +1,7 @@
 import QuantemModel.Lemmas.Config
 import QuantemModel.Lemmas.ConfigTwin
 import QuantemModel.Lemmas.ConfigUpdate
+import QuantemModel.Lemmas.ConfigHistory
 /-!
 C19 — the configuration store (Model/Config.lean) behaves as a last-writer-wins nested
 map.  Only property theorems and non-vacuity examples live here.
@@ -393,6 +394,199 @@ theorem updateDefaults_preserves_unmentioned (env : Env) (s s' : State) (new : D
           simpa [hd] using hf
         · simp at h3
 
+
+/-! ### whole histories (`Model/ConfigHistory.lean`: the transition function the driver runs) -/
+
+/-- Two key paths are *separated* when they leave each other at some level through keys that
+no '-'/'_' respelling identifies — a purely syntactic condition, independent of the state. -/
+def Sep : List Key → List Key → Prop
+  | k :: ps, k' :: qs => Unrelated k k' ∨ (k = k' ∧ ps ≠ [] ∧ qs ≠ [] ∧ Sep ps qs)
+  | _, _ => False
+
+/-- separated paths are apart in every dictionary in which the second one can be read -/
+theorem sep_apart (q : List Key) : ∀ (p : List Key) (d : Dict) (t : Tree),
+    Sep q p → Config.get d p = .ok t → Apart d q p := by
+  induction q with
+  | nil => intro p d t h; simp [Sep] at h
+  | cons k krest ih =>
+    intro p d t h hg
+    cases p with
+    | nil => simp [Sep] at h
+    | cons k' prest =>
+      simp only [Sep] at h
+      simp only [Apart]
+      rcases h with ⟨h1, h2, h3, h4⟩ | ⟨hk, hne, hpne, hsep⟩
+      · left
+        rcases canonicalName_mem k d with e | e <;> rw [e]
+        · exact ⟨h1, h2⟩
+        · exact ⟨h3, h4⟩
+      · right
+        subst hk
+        refine ⟨rfl, hne, ?_⟩
+        rw [Config.get] at hg
+        split at hg
+        · simp at hg
+        · rename_i sub hsub
+          exact ⟨sub, hsub, ih _ _ _ hsep hg⟩
+        · split at hg
+          · exact absurd rfl hpne
+          · simp at hg
+
+/-- one item of a `set` call that succeeds: the path reads back as the validated value -/
+theorem setItem_get_same (env : Env) (cfg cfg' : Dict) (key : Key) (v v' : Tree) (r : List RecOp)
+    (hv : checkKeyVal env key v = .ok v') (h : setItem env cfg (key, v) = .ok (cfg', r)) :
+    Config.get cfg' (splitDots key) = .ok v' := by
+  unfold setItem at h
+  simp [hv, bind, Except.bind] at h
+  exact get_assign_same _ _ _ _ _ _ h
+
+/-- one item of a `set` call leaves every readable path separated from its own untouched -/
+theorem setItem_frame (env : Env) (cfg cfg' : Dict) (kv : Key × Tree) (r : List RecOp)
+    (p : List Key) (t : Tree) (h : setItem env cfg kv = .ok (cfg', r))
+    (hs : Sep (splitDots kv.1) p) (hg : Config.get cfg p = .ok t) : Config.get cfg' p = .ok t := by
+  unfold setItem at h
+  cases hc : checkKeyVal env kv.1 kv.2 with
+  | error e => simp [hc, bind, Except.bind] at h
+  | ok v' =>
+    simp [hc, bind, Except.bind] at h
+    rw [get_assign_frame _ _ _ _ _ _ _ h (sep_apart _ _ _ _ hs hg)]
+    exact hg
+
+/-- a whole `set` call — successful or stopped by an exception after some items — leaves
+every readable path separated from all its items untouched -/
+theorem setItems_frame (env : Env) (p : List Key) (t : Tree) (items : List (Key × Tree)) :
+    ∀ (cfg : Dict) (rec_ : List RecOp), (∀ kv ∈ items, Sep (splitDots kv.1) p) →
+      Config.get cfg p = .ok t → Config.get (setItems env cfg rec_ items).1 p = .ok t := by
+  induction items with
+  | nil => intro cfg rec_ _ hg; simpa [setItems] using hg
+  | cons kv rest ih =>
+    intro cfg rec_ hs hg
+    rw [setItems]
+    split
+    · rename_i cfg1 r1 h1
+      exact ih _ _ (fun kv' hkv' => hs kv' (by simp [hkv'])) (setItem_frame _ _ _ _ _ _ _ h1 (hs kv (by simp)) hg)
+    · exact hg
+
+/-- the operations after which the value of path `p` must be unchanged: `set` calls and
+`with` blocks whose items are all separated from `p`, `update_defaults` calls whose
+top-level keys are unrelated to the first key of `p`; `refresh` is not among them (it
+restores the defaults on purpose). -/
+def Leaves : List Key → HOp → Prop
+  | p, .set items => ∀ kv ∈ items, Sep (splitDots kv.1) p
+  | p, .withBlock items => ∀ kv ∈ items, Sep (splitDots kv.1) p
+  | k :: _, .updateDefaults new => ∀ kv ∈ new, Unrelated kv.1 k
+  | [], .updateDefaults _ => False
+  | _, .refresh => False
+
+theorem hstep_frame (env : Env) (s : State) (op : HOp) (p : List Key) (t : Tree)
+    (hl : Leaves p op) (hg : Config.get s.config p = .ok t) :
+    Config.get (hstep env s op).config p = .ok t := by
+  cases op with
+  | set items => exact setItems_frame env p t items _ _ hl hg
+  | withBlock items =>
+    have := setItems_frame env p t items s.config [] hl hg
+    rcases h : setItems env s.config [] items with ⟨cfg, rec_, e⟩
+    cases e with
+    | none =>
+      simp only [hstep, h]
+      rw [with_block_restores env items s.config cfg rec_ .none h]
+      exact hg
+    | some e => simpa [hstep, h] using this
+  | updateDefaults new =>
+    cases p with
+    | nil => simp [Leaves] at hl
+    | cons k rest =>
+      simp only [hstep]
+      rw [updateDefaultsP_get_frame env s new k rest hl]
+      exact hg
+  | refresh => simp [Leaves] at hl
+
+theorem hrun_frame (env : Env) (p : List Key) (t : Tree) (ops : List HOp) :
+    ∀ (s : State), (∀ op ∈ ops, Leaves p op) → Config.get s.config p = .ok t →
+      Config.get (hrun env s ops).config p = .ok t := by
+  induction ops with
+  | nil => intro s _ hg; exact hg
+  | cons op rest ih =>
+    intro s hl hg
+    simp only [hrun, List.foldl_cons]
+    exact ih _ (fun o ho => hl o (by simp [ho])) (hstep_frame env s op p t (hl op (by simp)) hg)
+
+/-- **last writer wins over the whole history.**  Take any history `pre`, from any state,
+raising or not; then a `set` call one of whose items assigns `v` to `key` (the items up to
+and including it succeed; the items after it, which may fail, are separated from `key`);
+then any further history `post` of `set` calls, `with` blocks and `update_defaults` calls,
+raising or not, that does not write to `key`.  Reading `key` at the end returns `v` (as
+validated: a device request reads back as the normalised device). -/
+theorem lww_history (env : Env) (s : State) (pre post : List HOp) (its1 its2 : List (Key × Tree))
+    (key : Key) (v v' : Tree)
+    (hv : checkKeyVal env key v = .ok v')
+    (hok : (setItems env (hrun env s pre).config [] (its1 ++ [(key, v)])).2.2 = .none)
+    (h2 : ∀ kv ∈ its2, Sep (splitDots kv.1) (splitDots key))
+    (hpost : ∀ op ∈ post, Leaves (splitDots key) op) :
+    Config.get (hrun env s (pre ++ HOp.set (its1 ++ (key, v) :: its2) :: post)).config (splitDots key)
+      = .ok v' := by
+  have hrun_app : hrun env s (pre ++ HOp.set (its1 ++ (key, v) :: its2) :: post) =
+      hrun env (hstep env (hrun env s pre) (HOp.set (its1 ++ (key, v) :: its2))) post := by
+    simp [hrun, List.foldl_append]
+  rw [hrun_app]
+  apply hrun_frame env _ _ _ _ hpost
+  generalize hrun env s pre = s0 at hok ⊢
+  simp only [hstep]
+  rcases h1 : setItems env s0.config [] its1 with ⟨c1, r1, e1⟩
+  rw [setItems_append, h1] at hok
+  cases e1 with
+  | some e => simp at hok
+  | none =>
+    simp only [] at hok
+    rw [setItems] at hok
+    split at hok
+    · rename_i c2 r2 hset
+      have hsame := setItem_get_same env c1 c2 key v v' r2 hv hset
+      have : setItems env s0.config [] (its1 ++ (key, v) :: its2) = setItems env c2 (r1 ++ r2) its2 := by
+        rw [setItems_append, h1]
+        simp only []
+        rw [setItems, hset]
+      rw [this]
+      exact setItems_frame env _ _ its2 _ _ h2 hsame
+    · simp at hok
+
+/-- a `with set(...): pass` block that was entered is a no-op on the whole module state -/
+theorem withBlock_noop (env : Env) (s : State) (items : List (Key × Tree))
+    (h : hstepErr env s (.withBlock items) = .none) : hstep env s (.withBlock items) = s := by
+  rcases h1 : setItems env s.config [] items with ⟨cfg, rec_, e⟩
+  simp only [hstepErr, h1] at h
+  subst h
+  simp only [hstep, h1]
+  rw [with_block_restores env items s.config cfg rec_ .none h1]
+
+/-- **defaults only grow**: over any history the accumulated defaults are extended, never
+reordered, edited or dropped -/
+theorem defaults_grow_history (env : Env) (ops : List HOp) :
+    ∀ (s : State), s.defaults <+: (hrun env s ops).defaults := by
+  induction ops with
+  | nil => intro s; exact List.prefix_refl _
+  | cons op rest ih =>
+    intro s
+    simp only [hrun, List.foldl_cons]
+    exact List.IsPrefix.trans (hstep_defaults_prefix env s op) (ih _)
+
+/-- **refresh after any history** restores exactly the accumulated defaults: whatever was
+set before, a `refresh` that does not raise leaves the merge of the defaults list as the
+configuration, and the defaults themselves as they were -/
+theorem refresh_after_history (env : Env) (s : State) (ops : List HOp)
+    (h : hstepErr env (hrun env s ops) .refresh = .none) :
+    merge env (hrun env s ops).defaults = .ok (hstep env (hrun env s ops) .refresh).config ∧
+    (hstep env (hrun env s ops) .refresh).defaults = (hrun env s ops).defaults := by
+  generalize hrun env s ops = s1 at h ⊢
+  refine ⟨?_, rfl⟩
+  simp only [hstepErr, refreshP] at h
+  simp only [hstep, refreshP, merge]
+  rcases hgo : refreshP.go env [] s1.defaults with ⟨cfg, e⟩
+  rw [hgo] at h
+  simp only [] at h
+  subst h
+  exact refreshP_go_ok env _ _ _ hgo
+
 /-! ### non-vacuity: concrete states meeting the hypotheses -/
 
 private def kab : Key := ['a', '_', 'b']
@@ -427,5 +621,43 @@ example : Uniform kab' ∧ Uniform kviz ∧ altKey kab' = kab ∧ TwinFreeAlong 
     · simp [h1, h2] at hk
 example : (setItems { cuda := false, mps := false, numDevices := 0 } cfg0 []
     [(kviz ++ ['.'] ++ kcmap, .leaf (.str "hot")), (kpc, .leaf (.int 3))]).2.2 = .none := by rfl
+
+/-- a history meeting every hypothesis of `lww_history`: defaults are registered, a two-item
+`set` writes `viz.cmap`, later calls write siblings and unrelated keys -/
+private def env0 : Env := { cuda := false, mps := false, numDevices := 0 }
+private def kvizcmap : Key := kviz ++ ['.'] ++ kcmap
+private def kvizpc : Key := kviz ++ ['.'] ++ kpc
+example : splitDots kvizcmap = [kviz, kcmap] ∧ splitDots kvizpc = [kviz, kpc] := by decide
+example : Sep (splitDots kvizpc) (splitDots kvizcmap) := by
+  show Sep [kviz, kpc] [kviz, kcmap]
+  unfold Sep; right
+  refine ⟨rfl, by decide, by decide, ?_⟩
+  unfold Sep; left
+  unfold Unrelated; decide
+example :
+    let pre := [HOp.set cfg0, HOp.withBlock [(kab', .leaf (.int 9))]]
+    let s0 : State := { config := [], defaults := [cfg0] }
+    checkKeyVal env0 kvizcmap (.leaf (.str "hot")) = .ok (.leaf (.str "hot")) ∧
+    (setItems env0 (hrun env0 s0 pre).config [] ([(kab', .leaf (.int 4))] ++ [(kvizcmap, .leaf (.str "hot"))])).2.2 = .none ∧
+    (∀ op ∈ [HOp.updateDefaults [(kab, .leaf (.int 7))], HOp.set [(kvizpc, .leaf (.int 3))]],
+      Leaves (splitDots kvizcmap) op) := by
+  refine ⟨by rfl, by rfl, ?_⟩
+  intro op hop
+  simp only [List.mem_cons, List.not_mem_nil, or_false] at hop
+  rcases hop with rfl | rfl
+  · show ∀ kv ∈ [(kab, Tree.leaf (.int 7))], Unrelated kv.1 kviz
+    intro kv hkv
+    simp at hkv
+    subst hkv
+    unfold Unrelated; decide
+  · show ∀ kv ∈ [(kvizpc, Tree.leaf (.int 3))], Sep (splitDots kv.1) [kviz, kcmap]
+    intro kv hkv
+    simp at hkv
+    subst hkv
+    show Sep [kviz, kpc] [kviz, kcmap]
+    unfold Sep; right
+    refine ⟨rfl, by decide, by decide, ?_⟩
+    unfold Sep; left
+    unfold Unrelated; decide
 
 end QuantemModel.Props.C19
